@@ -290,9 +290,9 @@ func (c c03) Run(x *Exec, scn any) {
 		})
 	}
 	if s.AdvanceMs > 0 {
-		done := false
-		x.Sim.AddEnv(&verifsim.EnvAction{Name: "advance", Enabled: func() bool { return !done },
-			Run: func() { done = true; x.Sim.Advance(time.Duration(s.AdvanceMs) * time.Millisecond) }})
+		moves := 0
+		x.Sim.AddEnv(&verifsim.EnvAction{Name: "advance", Enabled: func() bool { return moves < 3 },
+			Run: func() { moves++; x.Sim.Advance(time.Duration(s.AdvanceMs) * time.Millisecond) }})
 	}
 	res := x.Sim.Run(nil)
 	if len(x.clientsStuck()) > 0 || res.StepCap {
